@@ -103,6 +103,8 @@ static void heldHandlesAgree(Prog &p, const Ent &fresh, Ctx &ctx, const char *wh
     for (auto &h : p.heldTags) { bool ok = false; try { ok = h.second && h.second.isValidEntity(); } catch (const std::exception &) {} if (ok) cmp(snapTag(h.second), "tag"); }
     for (auto &h : p.heldMTags) { bool ok = false; try { ok = h.second && h.second.isValidEntity(); } catch (const std::exception &) {} if (ok) cmp(snapMultiTag(h.second), "multi tag"); }
     for (auto &h : p.heldArrays) { bool ok = false; try { ok = h.second && h.second.isValidEntity(); } catch (const std::exception &) {} if (ok) cmp(snapArray(h.second), "data array"); }
+    for (auto &kv : p.blockHandles)
+        for (auto &h : kv.second) { bool ok = false; try { ok = h && h.isValidEntity(); } catch (const std::exception &) {} if (ok) cmp(snapBlock(h), "block"); }
     for (auto &h : p.heldGroups) { bool ok = false; try { ok = h.second && h.second.isValidEntity(); } catch (const std::exception &) {} if (ok) cmp(snapGroup(h.second), "group"); }
 }
 
@@ -207,6 +209,7 @@ static void c12hist(Tape &t, Ctx &ctx) {
     for (size_t i = 0; i < nops; i++) {
         if (i > 0 && t.exhausted()) break;
         StepInfo si = p.step();
+        p.lookThroughKeptHandles();
         if (si.is_reopen && !si.threw) sessions++;
         if (si.is_create && !si.threw) creates++;
         Ent now = snapshot(p.f);
